@@ -25,7 +25,8 @@ RULE = ("case = one point of a union of complete sub-lattices.  core: method {No
         "extra value planes drawn from VERIF_SEED.  distinct = distinct rounded observation (eigenvalues, residuals); "
         "no case is trivial")
 RULE_ADDED = ("Added later: reuse (same operator objects after an in-place update of their tensors), the caller's g"
-              'rad mode (torch.no_grad(), operands requiring grad), call-order plane in fresh interpreters.')
+              'rad mode (torch.no_grad(), operands requiring grad), call-order plane in fresh interpreters. Round 4'
+              ': svd of square Hermitian indefinite operators (flag detected / given / matrix-free).')
 ASSUMPTIONS = [
     "A = L Q diag(lam) Q^H L^H, M = c L L^H with Q from QR of a fixed generator stream, kappa(L L^H) = 3, c in "
     "[0.75, 1.5] per M batch element: the exact generalised spectrum is lam / c",
